@@ -182,7 +182,9 @@ def _run(ex, c, ci, node, res):
         ex.paths += 1
 
     ctx = ctx0.with_(ret=on_ret, exc=on_exc)
+    ex.top_qual = c.qual
     ex.ex_block(node.body, st, ctx, lambda st1: on_ret(st1, VNone()))
+    ex.drain_loops()
 
 
 def _uf_param(name, decl):
